@@ -44,6 +44,22 @@ def site_fuzz(w, res, r):
     # ascii controls for the same sites (must not fire)
     call("event_logger::write_event", "ascii-long", "write_event", message="x" * 9000)
     call("get_module_status", "ascii-long", "status_message", message="y" * 3000, module="ProxyServer")
+    # more events than the bounded event queue holds (nothing drains it before the first flush), written from several tasks at the same time
+    before = len(s.panics())
+    for k in range(1100):
+        s.call_async("write_event", message="fill-%d" % k)
+    s.call("ping")
+    handles = [s.call_async("write_event", message="burst-%d " % k + "z" * (k % 50)) for k in range(1600)]
+    for h_ in handles:
+        try:
+            s.wait(h_, 120)
+        except shimmod.ShimPanic:
+            pass
+    res["evaluations"] += 1
+    bump("site:event_queue_overflow_concurrent_writers:reached")
+    res["nontrivial"].append("event-queue-overflow")
+    for p_ in s.panics()[before:][:1]:
+        res["violations"].append(["panic-at:event_logger::write_event:%s" % (p_.get("location") or "?").split("/src/")[-1], {"class": "queue full, concurrent writers", "panic": p_}])
     # canonicaliser with arbitrary header bytes
     cases = []
     for hv in (b"caf\xe9", b"\xff\xfe", b"ok", b"\x80", "ü".encode(), b"a\tb"):
@@ -207,10 +223,13 @@ def e2e(w, res, r, scratch, args_tier="quick"):
     # and slashes), attributed and unattributed
     odd_targets = ["/a%", "/a%2", "/metadata/instance%2", "/x%252", "/x%25%32", "/%", "/%%", "/a%zz", "/a%2e%2", "/a%2e%2e%2", "/%2e%2e%2f", "/a/%2E%2E/%2", "/a?b=%", "/a?b=%2", "/a?%=%25%",
                    "/a%c3", "/a%c3%28", "/a%ff%fe", "/a%00b", "/a%25252e%25252e/x%2", "/" + "%2e" * 300 + "%2", "/a;b=%2", "/a%2/b%"]
-    for ti, target in enumerate(odd_targets):
+    # the other request-target forms of HTTP/1.1: authority-form (CONNECT), asterisk-form, absolute-form
+    odd_requests = [("GET", t) for t in odd_targets] + [("CONNECT", "168.63.129.16:80"), ("CONNECT", "example.org:443"), ("OPTIONS", "*"), ("GET", "http://168.63.129.16/machine?comp=goalstate"),
+                                                         ("GET", "http://x"), ("POST", "http://[::1]:80/a?b"), ("CONNECT", "[::1]:80"), ("GET", "//double/slash?x"), ("HEAD", "/head%2")]
+    for ti, (omethod, target) in enumerate(odd_requests):
         for attributed in (True, False):
             c = w.open("other", root, timeout=60) if attributed else w.open(record=False, timeout=60)
-            got = talk(c, b"GET " + target.encode() + b" HTTP/1.1\r\nHost: x\r\nx-vf-id: odd-%d\r\n\r\n" % ti)
+            got = talk(c, omethod.encode() + b" " + target.encode() + b" HTTP/1.1\r\nHost: x\r\nx-vf-id: odd-%d\r\n\r\n" % ti, omethod.encode())
             c.close()
             bump("e2e:odd-percent-target")
             res["nontrivial"].append("e2e-odd-target:%d:%s" % (ti, attributed))
